@@ -82,6 +82,13 @@ def cases(ctx):
         muts.append(('s>=n', msg, pk, sig[:32] + (N + rng.randrange(0, 100)).to_bytes(32, 'big')))
         muts.append(('s+n-wrap', msg, pk, sig[:32] + ((int.from_bytes(sig[32:], 'big') + N) % 2 ** 256).to_bytes(32, 'big')))
         muts.append(('neg-s', msg, pk, sig[:32] + (N - int.from_bytes(sig[32:], 'big')).to_bytes(32, 'big')))
+        # the signature that verifies only if the even-y requirement on R is dropped: same r, s' = -k + e*d (so s'G - eP = -R)
+        import coincurve
+        Pfull = coincurve.PrivateKey(sk).public_key.format(compressed=False)
+        dd = d if Pfull[64] % 2 == 0 else N - d
+        e = int.from_bytes(tag('BIP0340/challenge', sig[:32] + pk + msg), 'big') % N
+        k = (int.from_bytes(sig[32:], 'big') - e * dd) % N
+        muts.append(('neg-R', msg, pk, sig[:32] + ((-k + e * dd) % N).to_bytes(32, 'big')))
         muts.append(('other-msg', G.rbytes(rng, 32), pk, sig))
         muts.append(('other-key', msg, pubkey_gen(rng.randrange(1, N).to_bytes(32, 'big')), sig))
         offc = rng.getrandbits(256).to_bytes(32, 'big')
